@@ -83,6 +83,9 @@ def run_one(name, path, suite, tier, only):
 
 def main():
     args = sys.argv[1:]
+    if "--help" in args or "-h" in args:
+        print(__doc__)
+        return
     suite = "--suite" in args
     tier = "quick"
     jobs = 1
@@ -118,8 +121,15 @@ def main():
                 cells.append("%s=%s(%ss)%s" % (pid, verdict, x["secs"], " " + ",".join(x["keys"]) if x["keys"] else ""))
             print("%-40s suite=%-5s %s" % (r["name"], r.get("suite", "-"), "  ".join(cells)), flush=True)
     shutil.rmtree("/tmp/vmut", ignore_errors=True)
-    with open(os.path.join(VERIF, "mutants", "LAST_RESULTS.json"), "w") as f:
-        json.dump(results, f, indent=1)
+    # merge into the recorded results (by mutant name) instead of replacing them: a partial run keeps the rest
+    path = os.path.join(VERIF, "mutants", "LAST_RESULTS.json")
+    old = []
+    if os.path.exists(path):
+        old = json.load(open(path))
+    new = {r["name"]: r for r in results}
+    merged = [new.pop(r["name"], r) for r in old] + list(new.values())
+    with open(path, "w") as f:
+        json.dump(merged, f, indent=1)
 
 
 if __name__ == "__main__":
